@@ -122,7 +122,7 @@ SHAPES = {
 
 
 def budget(tier):
-    return int(os.environ.get("VERIF_BUDGET", 0)) or {"quick": 240, "thorough": 6000}[tier]
+    return int(os.environ.get("VERIF_BUDGET", 0)) or {"quick": 240, "thorough": 4500}[tier]
 
 
 # ---------------------------------------------------------------- generation
@@ -626,6 +626,9 @@ def _b(x):
 
 def advan_k(drv, cs, statements, control_stream, k, tags, label):
     """Compare the Lean ADVAN/TRANS decision, numbering and graph queries with the real functions."""
+    if len({n.name for n in cs._g.nodes if n != output}) < len(cs._g.nodes) - 1:
+        tags.append("duplicate-compartment-names")      # compartments are identified by name on the wire
+        return None
     gw, ids = graph_wire(cs)
     before = statements.before_odes
     stub = _Stub(control_stream, statements)
@@ -1141,6 +1144,31 @@ def stale_reserved(model, kind_):
     return False
 
 
+def des_map_stale(model):
+    cs = model.statements.ode_system
+    if cs is None or not model.internals.control_stream.get_records("DES"):
+        return False
+    cmap = {kk: v for kk, v in (model.internals.compartment_map or {}).items() if kk != "OUTPUT"}
+    return bool(cmap) and cmap != {nm: i + 1 for i, nm in enumerate(cs.compartment_names)}
+
+
+def track_origin(origin, model, name):
+    """Which transformation first left which inconsistency in the object (decides the witness class later)."""
+    for kind_ in ("F", "ALAG"):
+        if stale_reserved(model, kind_):
+            origin[kind_] = origin.get(kind_) or name
+        else:
+            origin[kind_] = None
+    if des_map_stale(model):
+        origin["desmap"] = True
+    return dict(origin)
+
+
+def code_compartments(model):
+    mr = code_model_record(model)
+    return len(mr) if mr is not None else None
+
+
 def witness_class(model, generic, what="", df=None, origin=None):
     """Decidable witness classes of the known defects; anything else keeps its generic class."""
     cstream = model.internals.control_stream
@@ -1149,10 +1177,16 @@ def witness_class(model, generic, what="", df=None, origin=None):
     if cs is not None and (any(cs._g.edges[e]["rate"] == 0 for e in cs._g.edges)
                            or any(n != output and cs._g.out_degree(n) == 0 for n in cs._g.nodes)):
         return "in-memory-system-has-dead-end-compartment"
-    if generic.startswith(("disk-", "cmt-")) and cs is not None and cstream.get_records("DES"):
-        cmap = {kk: v for kk, v in (model.internals.compartment_map or {}).items() if kk != "OUTPUT"}
-        if cmap and cmap != {nm: i + 1 for i, nm in enumerate(cs.compartment_names)}:
-            return "stale-compartment-map-on-des-path"
+    if cs is not None and len({n.name for n in cs._g.nodes if n != output}) < len(cs._g.nodes) - 1:
+        return "object-has-duplicate-compartments"
+    ncode = code_compartments(model)
+    if cs is not None and ncode is not None and ncode < len(cs.compartment_names) and \
+            (generic.endswith(("ode-size", "ode-rhs", "value-dv", "value-F")) or generic == "model-record-order"):
+        return "code-has-fewer-compartments-than-object"
+    if generic.startswith(("disk-", "cmt-")) and cs is not None and (des_map_stale(model) or (origin or {}).get("desmap")):
+        return "stale-compartment-map-on-des-path"
+    if generic == "rate-column-routing" and cs is not None and cstream.get_records("DES"):
+        return "rate-column-kept-on-des-path"
     if generic.startswith(("disk-", "cmt-dose")) and doses_left_on_central(model, df):
         return "cmt-doses-left-on-central"
     if generic.endswith("dose-parameters") and ("D1.0" in what or "R1.0" in what or "D2.0" in what or "R2.0" in what):
@@ -1218,6 +1252,8 @@ def dose_updater_k(drv, model, k, tags, label, rng):
     (1 | Fn | another reserved F | another symbol | an expression): real result vs the Lean updaters."""
     st = model.statements
     cs = st.ode_system
+    if len({c.name for c in cs._g.nodes if c != output}) < len(cs._g.nodes) - 1:
+        return      # broken object (duplicate compartments): the builder cannot address a compartment
     try:
         comp = cs.dosing_compartments[0]
     except ValueError:
@@ -1292,12 +1328,7 @@ def run_history(case, drv):
             model = new
             done += 1
             tags.append(f"op:{name}")
-            for kind_ in ("F", "ALAG"):
-                if stale_reserved(model, kind_):
-                    stale_origin[kind_] = stale_origin[kind_] or name
-                else:
-                    stale_origin[kind_] = None
-            model_origin = dict(stale_origin)
+            model_origin = track_origin(stale_origin, model, name)
             if case.get("light") and [name, kw] != case["ops"][-1]:
                 continue
             if twin is not None:
@@ -1345,7 +1376,8 @@ def run_history(case, drv):
                         mon.append({"cls": "advan-not-general-nonlinear", "what": f"{label}: nonlinear/zero-order system but $SUBROUTINES {c_advan}"})
                     mr = code_model_record(model)
                     if mr is not None and mr != cs.compartment_names:
-                        mon.append({"cls": "model-record-order", "what": f"{label}: $MODEL lists {mr}, compartment numbering is {cs.compartment_names}"})
+                        mon.append({"cls": witness_class(model, "model-record-order"),
+                                    "what": f"{label}: $MODEL lists {mr}, compartment numbering is {cs.compartment_names}"})
             if cs is not None and drv is not None and not case.get("light"):
                 dose_updater_k(drv, model, k, tags, label, rng)
             # ---- Mon: node index of the code records the next update_source will work from
@@ -1406,7 +1438,7 @@ def run_history(case, drv):
                     C = None
                 if C is not None:
                     tags.append("disk-roundtrip")
-                    check_routing(model, m3.dataset, label, mon, tags)
+                    check_routing(model, m3.dataset, label, mon, tags, origin=model_origin)
                     for f in compare_meaning(A, C, rng, "disk", True):
                         f["what"] = f"{label}: " + f["what"]
                         f["cls"] = witness_class(model, f["cls"], f["what"], m3.dataset, origin=model_origin)
@@ -1417,12 +1449,12 @@ def run_history(case, drv):
     return {"k": k, "mon": mon, "tags": tags, "nontrivial": done >= 1}
 
 
-def check_routing(model, df, label, mon0, tags):
+def check_routing(model, df, label, mon0, tags, origin=None):
     """The written data columns CMT / RATE must agree with the dose and observation routing of the in-memory graph."""
     mon = []
     _check_routing(model, df, label, mon, tags)
     for f in mon:
-        f["cls"] = witness_class(model, f["cls"], f["what"], df)
+        f["cls"] = witness_class(model, f["cls"], f["what"], df, origin=origin)
         mon0.append(f)
 
 
@@ -1472,9 +1504,11 @@ def run_branch(case, drv):
     rng = random.Random(case["seed"])
     k, mon, tags = [], [], ["kind=branch", f"start={case['start']}", f"branches={len(case['branches'])}"]
     parent = start_model(case["start"])
+    parent_origin = {}
     for name, kw in case["prefix"]:
         try:
             parent = getattr(pm, name)(parent, **kw)
+            track_origin(parent_origin, parent, name)
         except Exception as e:
             tags.append(f"op-refused:{name}:{type(e).__name__}")
     root = scratch_root() / f"c02-b{case['seed']}"
@@ -1485,11 +1519,13 @@ def run_branch(case, drv):
             before_code = parent.code
             child = parent
             applied = []
+            origin = dict(parent_origin)
             for name, kw in ops:
                 try:
                     child = getattr(pm, name)(child, **kw)
                     child.code
                     applied.append(name)
+                    track_origin(origin, child, name)
                 except Exception as e:
                     tags.append(f"op-refused:{name}:{type(e).__name__}")
             if not applied:
@@ -1499,7 +1535,12 @@ def run_branch(case, drv):
             tags += [f"op:{n}" for n in applied]
             # deriving a model must not change the parent (C06's statement; it is the mechanism behind wrong sibling data)
             if _frame_key(parent.dataset) != before or parent.code != before_code:
-                mon.append({"cls": "parent-changed-by-derived-model", "what": f"{label}: the parent's dataset/code changed while deriving this model"})
+                gained = [] if parent.dataset is None or before is None else [c for c in parent.dataset.columns if c not in before[0]]
+                same_rest = parent.dataset is not None and before is not None and \
+                    _frame_key(parent.dataset[[c for c in parent.dataset.columns if c in before[0]]]) == before
+                cls_ = "shared-dataset-gains-cmt-column-in-place" if gained == ["CMT"] and same_rest and parent.code == before_code \
+                    else "parent-changed-by-derived-model"
+                mon.append({"cls": cls_, "what": f"{label}: the parent's dataset/code changed while deriving this model"})
             if child.statements.ode_system is None:
                 continue
             try:
@@ -1518,10 +1559,10 @@ def run_branch(case, drv):
                 mon.append({"cls": reread_class(child, "disk"), "what": f"{label}: write_model/read_model raised {type(e).__name__}: {e}"[:400]})
                 continue
             tags.append("disk-roundtrip")
-            check_routing(child, m3.dataset, label, mon, tags)
+            check_routing(child, m3.dataset, label, mon, tags, origin=origin)
             for f in compare_meaning(A, C, rng, "disk", True):
                 f["what"] = f"{label}: " + f["what"]
-                f["cls"] = witness_class(child, f["cls"], f["what"], m3.dataset)
+                f["cls"] = witness_class(child, f["cls"], f["what"], m3.dataset, origin=origin)
                 mon.append(f)
     finally:
         shutil.rmtree(root, ignore_errors=True)
@@ -1699,7 +1740,16 @@ def run_record(case, drv):
                            for c in _sy(st.expression).atoms(sympy.Or, sympy.And))
                 and_of_or = any(isinstance(x, sympy.Or) for st in new if isinstance(st, Assignment)
                                 for c in _sy(st.expression).atoms(sympy.And) for x in c.args)
-                cls_ = ("printer-and-of-or-unparenthesised" if and_of_or else
+                zero_else = False
+                seen = set()
+                for st in new:
+                    if isinstance(st, Assignment):
+                        e_ = _sy(st.expression)
+                        if isinstance(e_, sympy.Piecewise) and e_.args[-1][1] == True and e_.args[-1][0] == 0 and st.symbol in seen:  # noqa: E712
+                            zero_else = True
+                        seen.add(st.symbol)
+                cls_ = ("zero-else-dropped-but-symbol-defined-earlier" if zero_else and not and_of_or else
+                        "printer-and-of-or-unparenthesised" if and_of_or else
                         "printer-nary-boolean-truncated" if nary else "record-text-differs-from-statements")
                 mon.append({"cls": cls_, "what": f"{label}: the record text no longer computes what its "
                             f"statements say: {diff_}; text: {str(newrec)!r}"[:700]})
